@@ -482,13 +482,12 @@ func genRcCase(rng *rand.Rand) *rcCase {
 		p.idOk, p.stOk = false, false
 		c.pods = append(c.pods, p)
 	}
-	if rng.Intn(40) == 0 && len(c.pods) > 0 { // duplicate ordinal
+	if rng.Intn(40) == 0 && len(c.pods) > 0 { // duplicate ordinal, only inside the desired set (Go's sort of condemned pods is not stable)
 		q := c.pods[rng.Intn(len(c.pods))]
-		p := genPodClass(rng, q.ord, c.cur, c.upd, 0)
-		if p.ord < 0 {
-			p.idOk, p.stOk = false, false
+		if desiredSet(c.r, c.slots)[q.ord] {
+			p := genPodClass(rng, q.ord, c.cur, c.upd, 0)
+			c.pods = append(c.pods, p)
 		}
-		c.pods = append(c.pods, p)
 	}
 	rng.Shuffle(len(c.pods), func(i, j int) { c.pods[i], c.pods[j] = c.pods[j], c.pods[i] })
 	// stored status: mostly what a census would give, sometimes stale
